@@ -62,6 +62,9 @@ func (t *Transformer) transformElements(elements []WirePattern, pkg *types.Packa
 
 	var result []KessokuPattern
 
+	// Position in result of the binding emitted for an implementation type
+	bindIndex := make(map[string]int)
+
 	for _, elem := range elements {
 		switch we := elem.(type) {
 		case *WireNewSet:
@@ -77,6 +80,16 @@ func (t *Transformer) transformElements(elements []WirePattern, pkg *types.Packa
 			if err != nil {
 				return nil, err
 			}
+			// Several interfaces bound to the same implementation share one provider:
+			// kessoku.Bind[I](kessoku.Bind[J](kessoku.Provide(NewT))). Two separate
+			// bindings would both provide the implementation type.
+			implKey := we.Implementation.String()
+			if idx, exists := bindIndex[implKey]; exists {
+				transformed.Provider = result[idx]
+				result[idx] = transformed
+				continue
+			}
+			bindIndex[implKey] = len(result)
 			result = append(result, transformed)
 		case *WireValue:
 			result = append(result, t.transformValue(we))
